@@ -137,7 +137,10 @@ Sinks == {"login_dest_loginpage", "login_dest_2fapage", "user_query_root", "user
           "users_page_names", "newtotp_error", "bootstrap_fingerprint_user", "logout_user",
           \* error_details: requests whose refusal message quotes the offending parameter, asked for as a browser would;
           \* session_user_pages: every page a logged-in user can open, the user NAME being the payload
-          "error_details", "session_user_pages"}
+          "error_details", "session_user_pages",
+          \* redirect_bodies: the 3xx answers of the login / second-factor handlers that kept the supplied destination -
+          \* a redirect carries an HTML body too
+          "redirect_bodies"}
 PayloadSeqs == UNION {[1..k -> PayloadAtoms] : k \in 1..2}
 InC18(r) == \E s \in Sinks, p \in PayloadSeqs : r = [sink |-> s, payload |-> p]
 
